@@ -41,6 +41,230 @@ contract(
 )
 
 
+# ---------------------------------------------------------------- path-sum lemmas (proved by induction, applied explicitly)
+lemma("path_split", {"d": "arr2", "x": "arr1", "a": "int", "b": "int", "c": "int"},
+      ["a <= b", "b <= c"], "path(d, x, a, c) == path(d, x, a, b) + path(d, x, b, c)", induct="c", base="b")
+lemma("path_frame", {"d": "arr2", "x": "arr1", "y": "arr1", "a": "int", "b": "int"},
+      ["a <= b", "forall(k, a, b + 1, x[k] == y[k])"], "path(d, x, a, b) == path(d, y, a, b)", induct="b", base="a")
+lemma("path_left", {"d": "arr2", "x": "arr1", "a": "int", "b": "int"},
+      ["a + 1 <= b"], "path(d, x, a, b) == d[x[a], x[a + 1]] + path(d, x, a + 1, b)", induct="b", base="a + 1")
+# reversal: y is x with [i..j] reversed, d symmetric on the values occurring: the path over the last m edges of y's segment
+# equals the path over the first m edges of x's segment
+lemma("path_rev", {"d": "arr2", "x": "arr1", "y": "arr1", "i": "int", "j": "int", "n": "int", "m": "int"},
+      ["0 <= i", "i <= j", "j < n", "0 <= m", "m <= j - i",
+       "forall(k, i, j + 1, y[k] == x[i + j - k])",
+       "forall(k, 0, n, 0 <= x[k] and x[k] < n)",
+       "forall(a, 0, n, forall(b, 0, n, d[a, b] == d[b, a]))"],
+      "path(d, y, j - m, j) == path(d, x, i, i + m)", induct="m", base="0",
+      uses=["path_left(d, y, j - m, j)"])
+
+lemma("path_bound", {"d": "arr2", "x": "arr1", "a": "int", "b": "int", "n": "int", "M": "int"},
+      ["0 <= a", "a <= b", "b < n", "forall(k, 0, n, 0 <= x[k] and x[k] < n)",
+       "forall(p, 0, n, forall(q, 0, n, 0 <= d[p, q] and d[p, q] <= M))"],
+      "0 <= path(d, x, a, b) and path(d, x, a, b) <= (b - a) * M", induct="b", base="a")
+
+REV = "moptipyapps.tsp.ea1p1_revn"
+spec("perm(x, n)", "forall(k, 0, n, 0 <= x[k] and x[k] < n)"
+     " and forall(a, 0, n, forall(b, 0, n, implies(a != b, x[a] != x[b])))", ret="bool")
+spec("reversed_seg(x, xo, i, j, n)", "forall(k, 0, n, x[k] == (xo[i + j - k] if (i <= k and k <= j) else xo[k]))", ret="bool")
+
+_rev_pre = [
+    "n_cities >= 3 and len(x) == n_cities and shape(dist, 0) == n_cities and shape(dist, 1) == n_cities",
+    "perm(x, n_cities)",
+    # (the callers also skip the complete reversal i = 0, j = n - 2; the kernel is correct for it, so it is not required)
+    "0 <= i and i < j and j <= n_cities - 2",
+    "M >= 0 and n_cities * M <= 2**62",
+    "forall(a, 0, n_cities, forall(b, 0, n_cities, 0 <= dist[a, b] and dist[a, b] <= M))",
+    "forall(a, 0, n_cities, forall(b, 0, n_cities, dist[a, b] == dist[b, a]))",
+    "y == tour(dist, x, n_cities)",
+    # the matrix dtype is signed (Instance.__new__ asks int_range_to_dtype for [-limit, limit]); with an unsigned
+    # matrix numba would compute dy in uint64 and the kernel would be wrong (found by the cross-check)
+    "D_lo < 0 and D_hi <= 2**63 - 1 and X_hi <= 2**63 - 1",
+]
+_rev_lemmas = [
+    # i > 0:  [0, i-1] frame, edge (i-1,i), segment [i, j] reversed, edge (j, j+1), [j+1, n-1] frame
+    "path_split(dist, old(x), 0, i, n_cities - 1)", "path_split(dist, x, 0, i, n_cities - 1)",
+    "path_split(dist, old(x), i, j, n_cities - 1)", "path_split(dist, x, i, j, n_cities - 1)",
+    "path_split(dist, old(x), j, j + 1, n_cities - 1)", "path_split(dist, x, j, j + 1, n_cities - 1)",
+    "path_split(dist, old(x), 0, i - 1, i)", "path_split(dist, x, 0, i - 1, i)",
+    "path_frame(dist, old(x), x, 0, i - 1)", "path_frame(dist, old(x), x, j + 1, n_cities - 1)",
+    "path_rev(dist, old(x), x, i, j, n_cities, j - i)",
+]
+
+contract(
+    REV + ":rev_if_not_worse",
+    props="C06",
+    params={"i": INT, "j": INT, "n_cities": INT, "dist": A2("D"), "x": A1("X"), "y": INT},
+    ghosts={"M": INT},
+    returns=INT,
+    requires=_rev_pre,
+    modifies=["x"],
+    wraps=["x[i-1]"],
+    split=["if#1"],
+    lemmas_at={"post": _rev_lemmas, "entry": ["path_bound(dist, x, 0, n_cities - 1, n_cities, M)"]},
+    ensures=[
+        tag("C06", "x-or-reversed", "same_array(x, old(x)) or reversed_seg(x, old(x), i, j, n_cities)"),
+        tag("C06", "perm-range", "forall(k, 0, n_cities, 0 <= x[k] and x[k] < n_cities)"),
+        tag("C06", "perm-injective", "forall(a, 0, n_cities, forall(b, 0, n_cities, implies(a != b, x[a] != x[b])))"),
+        tag("C06", "exact-length", "result == tour(dist, x, n_cities)"),
+        tag("C06", "never-worse", "result <= y"),
+    ],
+    must_fail=["same_array(x, old(x))"],
+)
+
+
+# ---------------------------------------------------------------- FEA kernel
+from pyvc.spec import axiom, Summary, OBJ, PYINT  # noqa: E402
+import itertools as _it  # noqa: E402
+
+
+def _tour_bounded_py(d, n, ub):
+    """concrete meaning of tour_bounded for small n: every tour length lies in [0, ub]"""
+    n = int(n)
+    if n > 7:
+        return True
+    for p in _it.permutations(range(n)):
+        t = sum(int(d[p[k - 1], p[k]]) for k in range(n))
+        if not (0 <= t <= ub):
+            return False
+    return True
+
+
+# tour_bounded(d, n, UB): "every permutation's tour length lies in [0, UB]" -- uninterpreted for the solver;
+# its only use is through the axiom below (justified by C05: UB = sum of row maxima + permutation-sum lemma A3, Lean)
+spec("tour_bounded(d, n, UB)", None, ret="bool", ptypes=["arr2", "int", "int"], pyimpl=_tour_bounded_py)
+axiom("tour_le_ub", {"d": "arr2", "x": "arr1", "n": "int", "UB": "int"},
+      ["tour_bounded(d, n, UB)", "perm(x, n)"], "0 <= tour(d, x, n) and tour(d, x, n) <= UB",
+      note="definition of tour_bounded: instance.tour_length_upper_bound bounds every tour "
+           "(C05 lemma: term-wise bound by the row maxima + permutation-sum lemma A3, Lean-checked)")
+
+FEA = "moptipyapps.tsp.fea1p1_revn"
+_rev_lemmas_ghost = [t.replace("old(x)", "XO").replace(", x,", ", xr,").replace("dist, x,", "dist, xr,")
+                     .replace("XO", "x") for t in _rev_lemmas]
+
+contract(
+    FEA + ":rev_if_h_not_worse",
+    props="C06",
+    params={"i": INT, "j": INT, "n_cities": INT, "dist": A2("D"), "h": A1("HT"), "x": A1("X"), "y": INT},
+    ghosts={"M": INT, "UB": INT},
+    returns=INT,
+    requires=_rev_pre + [
+        "len(h) == UB + 1 and UB >= 0 and UB <= n_cities * M",
+        "tour_bounded(dist, n_cities, UB)",
+        "HT_lo == -2**63 and HT_hi == 2**63 - 1",
+        "forall(k, 0, UB + 1, 0 <= h[k] and h[k] < 2**62)",
+    ],
+    modifies=["x", "h"],
+    wraps=["x[i-1]"],
+    split=["if#1"],
+    ghost_code={"after assign y2 #0": ["xr = rev_seg(x, i, j)", "g_y2 = y2"]},
+    ghost_results={"g_y2": INT},
+    asserts={"after assign y2 #0": [
+        tag("C06", "xr-range", "forall(k, 0, n_cities, 0 <= xr[k] and xr[k] < n_cities)"),
+        tag("C06", "xr-injective", "forall(a, 0, n_cities, forall(b, 0, n_cities, implies(a != b, xr[a] != xr[b])))"),
+        tag("C06", "y2-is-tour", "y2 == tour(dist, xr, n_cities)"),
+        tag("C06 C13", "y-in-table", "0 <= y and y <= UB"),
+        tag("C06 C13", "y2-in-table", "0 <= y2 and y2 <= UB"),
+    ]},
+    lemmas_at={"entry": ["path_bound(dist, x, 0, n_cities - 1, n_cities, M)", "tour_le_ub(dist, x, n_cities, UB)"],
+               "after assign y2 #0": _rev_lemmas_ghost + ["tour_le_ub(dist, xr, n_cities, UB)"],
+               },
+    ensures=[
+        tag("C06", "x-or-reversed", "same_array(x, old(x)) or reversed_seg(x, old(x), i, j, n_cities)"),
+        tag("C06", "perm-range", "forall(k, 0, n_cities, 0 <= x[k] and x[k] < n_cities)"),
+        tag("C06", "perm-injective", "forall(a, 0, n_cities, forall(b, 0, n_cities, implies(a != b, x[a] != x[b])))"),
+        tag("C06", "exact-length", "result == tour(dist, x, n_cities)"),
+        tag("C06 C13", "table-range", "0 <= result and result <= UB"),
+        tag("C06", "h-frame", "forall(k, 0, UB + 1, implies(k != y and k != g_y2, h[k] == old(h)[k]))"),
+        tag("C06", "result-choice", "result == y or result == g_y2"),
+        tag("C06", "h-grows", "forall(k, 0, UB + 1, old(h)[k] <= h[k] and h[k] <= old(h)[k] + 2)"),
+    ],
+    must_fail=["same_array(x, old(x))"],
+)
+
+
+# ---------------------------------------------------------------- the two solve() loops (plain Python; moptipy/numpy calls by assumed contract)
+lemma("cyc_is_tour", {"d": "arr2", "x": "arr1", "n": "int", "k": "int"},
+      ["1 <= k", "k <= n"], "cyc(d, x, n, k) == d[x[n - 1], x[0]] + path(d, x, 0, k - 1)", induct="k", base="1")
+
+_inst_facts = [
+    "shape(instance, 0) == shape(instance, 1)",
+    "M >= 0 and shape(instance, 0) * M <= 2**62",
+    "forall(a, 0, shape(instance, 0), forall(b, 0, shape(instance, 0), 0 <= instance[a, b] and instance[a, b] <= M))",
+    "forall(a, 0, shape(instance, 0), forall(b, 0, shape(instance, 0), instance[a, b] == instance[b, a]))",
+    "D_lo < 0 and D_hi <= 2**63 - 1",
+]
+_register = contract("<opaque>:register", params={"x": A1("X"), "y": PYINT}, ghosts={"d": A2("D"), "n": PYINT}, props="C06",
+                     requires=[tag("C06", "valid-permutation", "perm(x, n) and len(x) == n"),
+                               tag("C06", "exact-tour-length", "y == tour(d, x, n)")])
+_should_terminate = contract("<opaque>:should_terminate", params={}, returns=BOOL)
+_ri = contract("<opaque>:ri", params={"k": PYINT}, returns=PYINT, ensures=["0 <= result and result < k"],
+               assumptions=["numpy Generator.integers(k) returns a value in [0, k)"])
+
+_solve_summaries = {
+    "assign random #0": Summary({"random": OBJ}, [], "process.get_random()"),
+    "assign register #0": Summary({"register": OBJ}, [], "process.register (contract: E3)"),
+    "assign should_terminate #0": Summary({"should_terminate": OBJ}, [], "process.should_terminate"),
+    "assign ri #0": Summary({"ri": OBJ}, [], "random.integers"),
+    "assign instance #0": Summary({"instance": A2("D")}, _inst_facts,
+                                  "self.instance is a symmetric tsp.Instance: square, entries in [0, M] (Instance.__new__, C05)"),
+    "assign n #0": Summary({"n": PYINT}, ["n == shape(instance, 0)", "n >= 1"], "instance.n_cities"),
+    "assign x #0": Summary({"x": A1("X")}, ["len(x) == n", "X_hi <= 2**63 - 1"], "process.create(): array of length n (moptipy Permutations, E2)"),
+    "assign x[:] #0": Summary({"x": A1("X")}, ["len(x) == n", "forall(k, 0, n, x[k] == k)"], "x[:] = range(n)"),
+    "call random.shuffle #0": Summary({"x": A1("X")}, ["len(x) == n", "perm(x, n)"],
+                                      "numpy Generator.shuffle permutes the array in place (E4)"),
+    "assign y #0": Summary({"y": PYINT}, ["y == tour(instance, x, n)"],
+                           "process.evaluate(x) returns TourLength.evaluate(x) = tour_length(instance, x), proved = tour(...) in C05 (E3)"),
+}
+
+contract(
+    REV + ":TSPEA1p1revn.solve",
+    props="C06",
+    params={"process": OBJ},
+    ghosts={"M": PYINT},
+    i64=False,
+    summaries=_solve_summaries,
+    opaque={"register": _register, "should_terminate": _should_terminate, "ri": _ri},
+    calls={"register": {"d": "instance", "n": "n"}, "rev_if_not_worse": {"M": "M"}},
+    loops={"0": Loop(inv=[
+        tag("C06", "len", "len(x) == n"),
+        tag("C06", "perm", "perm(x, n)"),
+        tag("C06", "length-exact", "y == tour(instance, x, n)"),
+    ])},
+    assumptions=["moptipy Process/Generator calls are replaced by the summaries listed under 'summaries' (E2, E3, E4)"],
+)
+
+_fea_summaries = dict(_solve_summaries)
+_fea_summaries["assign h #0"] = Summary(
+    {"h": A1("HT")},
+    ["UB >= 0 and len(h) == UB + 1 and forall(k, 0, UB + 1, h[k] == 0)", "HT_lo == -2**63 and HT_hi == 2**63 - 1",
+     "tour_bounded(instance, shape(instance, 0), UB) and UB <= shape(instance, 0) * M"],
+    "np.zeros(instance.tour_length_upper_bound + 1, DEFAULT_INT); UB = instance.tour_length_upper_bound bounds every tour (C05)")
+_fea_summaries["if #2"] = Summary({}, [], "do_log_h: logging of the frequency table after the run (numpy-checked indexing)")
+
+contract(
+    FEA + ":TSPFEA1p1revn.solve",
+    props="C06",
+    params={"process": OBJ},
+    ghosts={"M": PYINT, "UB": PYINT},
+    i64=False,
+    summaries=_fea_summaries,
+    opaque={"register": _register, "should_terminate": _should_terminate, "ri": _ri},
+    calls={"register": {"d": "instance", "n": "n"}, "rev_if_h_not_worse": {"M": "M", "UB": "UB"}},
+    loops={"0": Loop(
+        ghost_pre=["it = 0"], ghost_end=["it = it + 1"],
+        assume=["it < 2**60"],
+        inv=[
+            tag("C06", "len", "len(x) == n and len(h) == UB + 1"),
+            tag("C06", "perm", "perm(x, n)"),
+            tag("C06", "length-exact", "y == tour(instance, x, n)"),
+            tag("C06", "counters", "0 <= it and forall(k, 0, UB + 1, 0 <= h[k] and h[k] <= 2 * it)"),
+        ])},
+    assumptions=["moptipy Process/Generator calls are replaced by the summaries listed under 'summaries' (E2, E3, E4)",
+                 "fewer than 2**60 loop iterations (frequency counters stay below 2**62)"],
+)
+
+
 # ---- concrete input generators (counterexample search / cross-check against the compiled functions)
 import numpy as np  # noqa: E402
 
@@ -57,8 +281,8 @@ def _rand_matrix(rng, n, sym=True, maxv=None):
             for j in range(i):
                 m[i][j] = m[j][i]
     mx = max(max(r) for r in m)
-    dt = rng.choice([d for d in (np.int8, np.uint8, np.int16, np.uint16, np.int32, np.uint32, np.int64)
-                     if np.iinfo(d).max >= mx])
+    # tsp.Instance stores its matrix in int_range_to_dtype(-limit, limit): always a signed type
+    dt = rng.choice([d for d in (np.int8, np.int16, np.int32, np.int64) if np.iinfo(d).max >= mx])
     return np.array(m, dtype=dt), mx
 
 
@@ -79,3 +303,42 @@ def _call_tour_length(inp):
 from pyvc.spec import CONTRACTS  # noqa: E402
 CONTRACTS[TL + ":tour_length"].gen = _gen_tour_length
 CONTRACTS[TL + ":tour_length"].call = _call_tour_length
+
+
+def _gen_rev(rng, with_h=False):
+    n = rng.randint(3, 8)
+    d, mx = _rand_matrix(rng, n, sym=True, maxv=rng.choice([1, 2, 5, 50] + ([] if with_h else [10 ** 9])))
+    x = list(range(n))
+    rng.shuffle(x)
+    cand = [(i, j) for i in range(n - 1) for j in range(i + 1, n - 1)]
+    if not cand:
+        return None
+    i, j = rng.choice(cand)
+    xa = np.array(x, dtype=rng.choice([np.int8, np.uint8, np.int16, np.int64]))
+    y = sum(int(d[x[k - 1], x[k]]) for k in range(n))
+    inp = {"i": i, "j": j, "n_cities": n, "dist": d, "x": xa, "y": y, "M": int(mx)}
+    if with_h:
+        ub = sum(int(max(d[r, c] for c in range(n) if c != r)) for r in range(n))
+        h = np.zeros(ub + 1, np.int64)
+        for _ in range(rng.randint(0, 6)):
+            h[rng.randint(0, ub)] += rng.randint(0, 3)
+        if rng.random() < 0.5:
+            h[y] += rng.randint(0, 2)
+        inp.update({"h": h, "UB": ub})
+    return inp
+
+
+def _call_rev(inp):
+    from moptipyapps.tsp.ea1p1_revn import rev_if_not_worse
+    return int(rev_if_not_worse(inp["i"], inp["j"], inp["n_cities"], inp["dist"], inp["x"], inp["y"]))
+
+
+def _call_rev_h(inp):
+    from moptipyapps.tsp.fea1p1_revn import rev_if_h_not_worse
+    return int(rev_if_h_not_worse(inp["i"], inp["j"], inp["n_cities"], inp["dist"], inp["h"], inp["x"], inp["y"]))
+
+
+CONTRACTS[REV + ":rev_if_not_worse"].gen = _gen_rev
+CONTRACTS[REV + ":rev_if_not_worse"].call = _call_rev
+CONTRACTS[FEA + ":rev_if_h_not_worse"].gen = lambda rng: _gen_rev(rng, True)
+CONTRACTS[FEA + ":rev_if_h_not_worse"].call = _call_rev_h
